@@ -173,7 +173,7 @@ pub fn eval(expr: Node) -> Result<Complex<f64>, Box<dyn error::Error>> {
         Lb(sub_expr) => Ok(ln(eval(*sub_expr)?) / std::f64::consts::LN_2),
         Exp(sub_expr) => Ok(eval(*sub_expr)?.exp()),
         Exp2(sub_expr) => Ok(eval(*sub_expr)?.exp2()),
-        Log(expr1, expr2) => Ok(ln(eval(*expr1)?) / ln(eval(*expr2)?)),
+        Log(expr1, expr2) => Ok(div(ln(eval(*expr1)?), ln(eval(*expr2)?))),
     }
 }
 
